@@ -580,18 +580,23 @@ pub fn eval_unit_name(
             )),
             BinOpType::Mod => {
                 let (left_unit, left) = eval_unit_name(ctx, &binop.left)?;
-                let (right_unit, _right) = eval_unit_name(ctx, &binop.right)?;
+                let (right_unit, right) = eval_unit_name(ctx, &binop.right)?;
 
                 if left_unit != right_unit {
                     return Err(QueryError::generic(
                         "Modulo of values with differing dimensions is not meaningful".to_string(),
                     ));
                 }
-                Ok((left_unit, left))
+                // Both sides are multiples of the same unit, so the
+                // constant factor of the result is that of the factors.
+                let value = Number::new(left)
+                    .rem(&Number::new(right))
+                    .map_err(QueryError::generic)?;
+                Ok((left_unit, value.value))
             }
             BinOpType::And | BinOpType::Or | BinOpType::Xor => {
                 let (left_unit, left) = eval_unit_name(ctx, &binop.left)?;
-                let (right_unit, _right) = eval_unit_name(ctx, &binop.right)?;
+                let (right_unit, right) = eval_unit_name(ctx, &binop.right)?;
 
                 if !left_unit.is_empty() || !right_unit.is_empty() {
                     return Err(QueryError::generic(format!(
@@ -599,7 +604,14 @@ pub fn eval_unit_name(
                         binop.op
                     )));
                 }
-                Ok((left_unit, left))
+                let (left, right) = (Number::new(left), Number::new(right));
+                let value = match binop.op {
+                    BinOpType::And => left.and(&right),
+                    BinOpType::Or => left.or(&right),
+                    _ => left.xor(&right),
+                }
+                .map_err(QueryError::generic)?;
+                Ok((left_unit, value.value))
             }
         },
         Expr::Mul { ref exprs } => {
